@@ -102,7 +102,7 @@ func NewServer(v *viper.Viper, logger logrus.FieldLogger) *statsd.Server {
 	if v.GetBool(gostatsd.ParamLambdaExtensionManualFlush) {
 		s.ForwarderFlushCoordinator = flush.NewFlushCoordinator()
 		// Dynamic headers are disable as they can cause multiple flush notifies per flush
-		v.Set("dynamic-header", []string{})
+		v.Set("http-transport.dynamic-headers", []string{})
 	}
 
 	return s
